@@ -51,10 +51,12 @@ CLAIMS = {
         "refused; a sub-path service carries the flags of the root service of its first host (TLS off if none). The statement's 'of its host' "
         "for multi-host sub-path services is FALSE on the pinned tree (theorem C16_witness_multihost, finding F9, replayed every run).",
    note=TB + "Modelled: crypto/tls handshake, autocert host policy, http.Redirect. Partial: percent-encoded redirect targets rely on the net/url model of C13."),
- 'C08': dict(engine='control', technique='Lean 4 proof (request-path decision logic; escaping by kernel-checked decide over all 256 bytes, lifted by induction) + differential correspondence run',
+ 'C08': dict(engine='control', technique='Lean 4 proof (request-path decision logic; stopped-state invariance by induction over command histories; escaping by kernel-checked decide over all 256 bytes, lifted by induction) + differential correspondence run',
    text="Theorems: a stopped service answers every TLS-admissible request 503 with the current message and claims nothing, except the "
         "health-check GET (200); resume sets running; stop records the message; the pause controller is unaffected by any deploy of the "
-        "service (successful or not); the inserted text contains no < > \" ' for every message and unescapes back to the message. Tied by "
+        "service (successful or not); 'until resumed' over whole histories (C08_state_survives_command, C08_stopped_until_resumed, by induction over ANY "
+        "command sequence): state, stop message and max pause of a service are left exactly as they were by every command other than "
+        "pause/stop/resume/remove on that service and restart; the inserted text contains no < > \" ' for every message and unescapes back to the message. Tied by "
         "histories of stop/pause/resume/deploy/rollout with hostile messages, built-in and custom 503 pages, body text compared byte for byte.",
    note=TB + "Modelled: html/template text-context escaper. The concurrent clause (requests arriving at any time) is carried by the proxy engine (C07)."),
 
